@@ -39,7 +39,11 @@ META = dict(
          "uses every main-relative form (`of framer main`, `.y of framer main`, framer.main.y, `of frame main [of framer main]`, "
          "frame.main.y, framer.main.frame.main.y) in put / copy / need / do via / do per; agreement oracle: the leaf's path equals "
          "the path its main framer (the middle clone) gets for `y of framer` / `y of frame`; renaming oracle for outer framer, both "
-         "originals, both tags, all frames and the doer.",
+         "originals, both tags, all frames and the doer.  Keyword-affix names: every framer, frame, clone tag and doer in turn is "
+         "called mainline / remain / meter / home (thorough also maintain, mean) -- `main` / `me` as prefix or suffix -- in a plain "
+         "framer and in a named clone, with the explicit-name inline forms frame.<n>.x, framer.<n>.x, framer.<n>.frame.<n>.x, "
+         "actor.<n>.x and the `of frame|framer|actor <n>` forms in put / do via / do per (thorough also need); exact oracle: the "
+         "written names; renaming oracle: to a neutral fresh name and to another keyword-affix name.",
     note="Inode prefixes are name-free, so oracle 2 is exact about names but says nothing about the literal inode segments; "
          "their layout is only checked for renaming invariance (oracle 1).  `as mine` insular clones (generated tags) and the "
          "`do .. as name via/per` parsing defect of C15 are avoided by writing `at enter` after the doer name.",
@@ -239,6 +243,8 @@ def cases(tier):
             for slot in SLOTS:
                 if tier != "thorough" and cname != "I0" and slot[0] not in QUICK_VIA_SLOTS:
                     continue      # quick: the other 7 slots go through the same parseIndirect/resolvePath; all 17 slots at I0
+                if tier != "thorough" and slot[0] not in QUICK_VIA_SLOTS and placement in ("nested", "aux"):
+                    continue      # quick: the 7 secondary slots only in the first frame and in the clone
                 if tier != "thorough" and ((cname == "I4" and placement in ("top", "nested")) or
                                            (cname == "I1" and placement == "aux")):
                     continue      # quick: these placements see no via of that configuration (identical to I0)
@@ -793,6 +799,149 @@ def check_nested(real, addr, p, case):
         p.sample(dict(tags=tname, line=line, leaf=mine[0], main=target[0]))
 
 
+# ----------------------------------------------------------------------------- names with a keyword as prefix / suffix
+#
+# `me` and `main` are keywords of the relation grammar only as WHOLE names.  Framers, frames, clone tags and doers may be
+# called mainline, maintain, remain, mean, meter, home ...: an explicitly named reference must resolve through exactly
+# that name, in the inline forms (frame.<name>.x, framer.<name>.x, framer.<name>.frame.<name>.x, actor.<name>.x) as well
+# as in the `of` forms, and renaming such an entity to or from such a name must change only its own segment.
+
+KNAMES = ["mainline", "remain", "meter", "home", "maintain", "mean"]
+KNEUTRAL = dict(FM="wfa", FF="hra", FG="hrb", FB="wfb", FC="hrc", MO="wfd", CR="hrd", CO="hre", TG="tgc", AC="dxa")
+KROLES = ["FF", "FG", "CR", "CO", "FM", "FB", "FC", "MO", "TG", "AC"]
+# (id, written reference, expected path) in terms of SELF (current framer name), CUR / OTH (current / other frame), FB, FC, AC
+KFORMS = [
+    ("in-frame-cur",         "frame.{CUR}.x",                     "framer.{SELF}.frame.{CUR}.x"),
+    ("in-frame-other",       "frame.{OTH}.x",                     "framer.{SELF}.frame.{OTH}.x"),
+    ("in-framer-self",       "framer.{SELF}.x",                   "framer.{SELF}.x"),
+    ("in-framer-frame",      "framer.{SELF}.frame.{CUR}.x",       "framer.{SELF}.frame.{CUR}.x"),
+    ("in-framer-frame-else", "framer.{FB}.frame.{FC}.x",          "framer.{FB}.frame.{FC}.x"),
+    ("in-actor",             "actor.{AC}.x",                      "framer.{SELF}.frame.{CUR}.actor.{AC}.x"),
+    ("of-frame-cur",         "x of frame {CUR}",                  "framer.{SELF}.frame.{CUR}.x"),
+    ("of-frame-other",       "x of frame {OTH}",                  "framer.{SELF}.frame.{OTH}.x"),
+    ("of-framer-self",       "x of framer {SELF}",                "framer.{SELF}.x"),
+    ("of-frame-of-framer",   "x of frame {FC} of framer {FB}",    "framer.{FB}.frame.{FC}.x"),
+    ("of-actor-name",        "x of actor {AC}",                   "framer.{SELF}.frame.{CUR}.actor.{AC}.x"),
+]
+KSLOTS = [
+    ("put-dst",    "put 1 into {REF}",                        "parm:destination", False),
+    ("do-via",     "do lit as {AC} at enter via {REF}",       "attr:inode",       False),
+    ("do-per",     "do lit as {AC} at enter per v {REF}",     "attr:v",           True),     # literal ipath: framer... forms only
+    ("need-state", "go me if {REF} == 1",                     "parm:state",       False),
+]
+
+
+def kw_context(names, place):
+    c = dict(names)
+    if place == "top":
+        c.update(SELF=names["FM"], CUR=names["FF"], OTH=names["FG"])
+    else:
+        c.update(SELF="%s_%s" % (names["FM"], names["TG"]), CUR=names["CR"], OTH=names["CO"])
+    return c
+
+
+def kw_fill(t, c):
+    for k, v in c.items():
+        t = t.replace("{%s}" % k, v)
+    return t
+
+
+def kw_program(names, place, slot, form):
+    c = kw_context(names, place)
+    line = kw_fill(slot[1].replace("{REF}", form[1]), c)
+    n = names
+    src = ["house h", "framer %s be active first %s" % (n["FM"], n["FF"]), "frame %s" % n["FF"]]
+    if place == "top":
+        src.append("  " + line)
+    src += ["  aux %s as %s" % (n["MO"], n["TG"]), "frame %s" % n["FG"],
+            "framer %s be active first %s" % (n["FB"], n["FC"]), "frame %s" % n["FC"],
+            "framer %s be moot first %s" % (n["MO"], n["CR"]), "frame %s" % n["CR"]]
+    if place == "clone":
+        src.append("  " + line)
+    src += ["frame %s" % n["CO"], ""]
+    return "\n".join(src), line, kw_fill(form[2], c)
+
+
+def kw_cases(tier):
+    out = []
+    pool = KNAMES if tier == "thorough" else KNAMES[:4]
+    slots = KSLOTS if tier == "thorough" else KSLOTS[:3]
+    assigns = [("neutral", None, None)]
+    for role in KROLES:
+        for k in pool:
+            if tier != "thorough" and role not in ("FF", "FG", "CR", "CO") and k not in ("mainline", "home"):
+                continue      # quick: all four names on the frames, main* and *me on framers / tag / doer
+            assigns.append((role + "=" + k, role, k))
+    for aname, role, k in assigns:
+        for place in ("clone", "top"):
+            for slot in slots:
+                for form in KFORMS:
+                    if slot[3] and not form[1].startswith("framer."):
+                        continue
+                    out.append((aname, role, k, place, slot, form))
+    return out
+
+
+def check_kw(real, addr, p, case):
+    aname, role, k, place, slot, form = case
+    names = dict(KNEUTRAL)
+    if role:
+        names[role] = k
+    text, line, want = kw_program(names, place, slot, form)
+    tag = "keyword-affix|%s|%s|%s|%s" % (role or "neutral", slot[0], form[0], place)
+    rep = dict(script=text, line=line, names=names,
+               how="build with ioflo.base.building.Builder; the line's Share/Node parameter must be the written path with the "
+                   "explicit names (me / main are keywords only as whole names)")
+    orig = observe(real, addr, text)
+    p.evaluations += 1
+    if orig[0] != "ok":
+        p.violation("%s|refused" % tag, aname, "`%s` (%s named %s) is refused: %s" % (line, role, k, orig[3]), rep)
+        p.outcome("keyword-affix names: refused")
+        return
+    mine = [v[0].split(" ", 1)[1] for kk, v in sorted(orig[1].items()) if v[1] == line and kk.split("/")[-1] == slot[2]]
+    p.nontrivial(tag + "|" + aname)
+    p.outcome("keyword-affix names: built")
+    p.evaluations += 1
+    if mine != [want]:
+        p.violation("%s|wrong-path" % tag, aname, "`%s` in framer %s resolves to %r, the written names give %s" % (
+            line, kw_context(names, place)["SELF"], mine, want), dict(rep, resolved=mine, expected=want))
+        return
+    if not role:
+        return
+    pool = KNAMES
+    targets = [FRESH, pool[(pool.index(k) + 1) % len(pool)]]
+    for new in targets:
+        n2 = dict(names)
+        n2[role] = new
+        rtext, rline, rwant = kw_program(n2, place, slot, form)
+        ren = observe(real, addr, rtext)
+        p.evaluations += 1
+        where = "%s rename %s -> %s" % (aname, k, new)
+        rrep = dict(rep, renamed_script=rtext, rename=[role, k, new])
+        if ren[0] != "ok":
+            p.violation("%s|build-outcome-depends-on-name" % tag, where, "`%s` builds, `%s` is refused: %s" % (line, rline, ren[3]), rrep)
+            continue
+        exp_refs = dict((kk, rename_path(v[0], k, new)) for kk, v in orig[1].items())
+        got_refs = dict((kk, v[0]) for kk, v in ren[1].items())
+        if exp_refs != got_refs:
+            diff = [(kk, orig[1].get(kk, ("-",))[0], exp_refs.get(kk), got_refs.get(kk))
+                    for kk in sorted(set(exp_refs) | set(got_refs)) if exp_refs.get(kk) != got_refs.get(kk)]
+            kk, o, e, g = diff[0]
+            p.violation("%s|renamed-map-differs" % tag, where,
+                        "`%s`: renaming %s %s -> %s: reference %s resolved to %s before, expected %s after, got %s" % (
+                            line, role, k, new, kk, o, e, g), dict(rrep, differences=diff[:8]))
+            continue
+        exp_names = sorted(rename_path(nm, k, new) for nm in orig[2])
+        if exp_names != ren[2]:
+            x, y = set(exp_names), set(ren[2])
+            p.violation("%s|renamed-store-differs" % tag, where, "renaming %s %s -> %s: store shares missing %s, unexpected %s" % (
+                role, k, new, sorted(x - y)[:4], sorted(y - x)[:4]), dict(rrep, missing=sorted(x - y), unexpected=sorted(y - x)))
+            continue
+        p.outcome("keyword-affix rename to %s" % ("a neutral name" if new == FRESH else "another keyword-affix name"))
+    if (len(p.keys) % 131) == 1:
+        p.sample(dict(names=aname, line=line, resolved=mine))
+
+
 BASE = {}
 
 
@@ -920,9 +1069,12 @@ def work(arg):
     elif kind == "actor":
         for case in actor_cases(tier)[start:stop]:
             check_actor(real, addr, p, case)
-    else:
+    elif kind == "nested":
         for case in nested_cases(tier)[start:stop]:
             check_nested(real, addr, p, case)
+    else:
+        for case in kw_cases(tier)[start:stop]:
+            check_kw(real, addr, p, case)
     return p
 
 
@@ -989,6 +1141,15 @@ def replay(path):
                     hit = "insular"
                     break
         if hit is None:
+            for case in kw_cases("thorough"):
+                nm = dict(KNEUTRAL)
+                if case[1]:
+                    nm[case[1]] = case[2]
+                if kw_program(nm, case[3], case[4], case[5])[0] == script:
+                    check_kw(real, addr, p, case)
+                    hit = "insular"
+                    break
+        if hit is None:
             for case in actor_cases("thorough"):
                 if actor_program(case[1], case[2], case[4][1]) == script:
                     check_actor(real, addr, p, case)
@@ -1025,8 +1186,11 @@ def run():
     items += [("actor", i, i + 5, core.TIER) for i in range(0, len(ca), 5)]
     cn = nested_cases(core.TIER)
     items += [("nested", i, i + 30, core.TIER) for i in range(0, len(cn), 30)]
+    ck_ = kw_cases(core.TIER)
+    items += [("kw", i, i + CHUNK, core.TIER) for i in range(0, len(ck_), CHUNK)]
     ck.merge(core.pmap(work, items))
-    ck.coverage_extra = dict(programs=len(cs), renamings_per_program=len(ENTITIES), collision_programs=len(cc), insular_programs=len(ci), actor_name_programs=len(ca), nested_clone_programs=len(cn),
+    ck.coverage_extra = dict(programs=len(cs), renamings_per_program=len(ENTITIES), collision_programs=len(cc), insular_programs=len(ci), actor_name_programs=len(ca), nested_clone_programs=len(cn), keyword_affix_programs=len(ck_),
+                             keyword_affix_names=KNAMES, keyword_affix_roles=KROLES,
                              nested_clone_tags=[t[0] for t in NTAGS], nested_clone_forms=[f[1] for f in NFORMS],
                              actor_name_triples=[(t[0], t[2]) for t in ATRIPLES], actor_name_clauses=[c[0] for c in ACLAUSES],
                              insular_name_pairs=[x[:3] for x in IPAIRS], insular_clone_orders=[x[0] for x in ISEQS],
